@@ -475,9 +475,14 @@ def obs_elems(seq_or_none, arrs):
     for i, a in enumerate(arrs):
         if not isinstance(a, np.ndarray):
             return None
-        e = xabstract(a)
         if seq_or_none is not None and i < len(seq_or_none) and seq_or_none[i] is None:
+            # the element at a None position is np.empty(...): UNINITIALISED memory -- its contents are don't-care and may be any bit
+            # pattern (a float beyond the payload encoding made xabstract raise once): abstract a zeroed copy
+            a = np.zeros_like(a) if a.dtype.kind not in "USO" else a
+            e = xabstract(a)
             e["flat"] = [0] * len(e["flat"])
+        else:
+            e = xabstract(a)
         out.append(e)
     return out
 
